@@ -1837,4 +1837,194 @@ theorem costVariant_le : ∀ (vars : List (List Ty)) (d : Nat) (s : List Nat),
 end
 
 
+/-! ### encodings consist of canonical elements -/
+
+theorem Canon.cons_iff {x : Nat} {s : List Nat} : Canon (x :: s) ↔ x < P ∧ Canon s := by
+  unfold Canon; simp
+theorem Canon.append_iff {a b : List Nat} : Canon (a ++ b) ↔ Canon a ∧ Canon b := by
+  unfold Canon; simp only [List.mem_append]
+  exact ⟨fun h => ⟨fun x hx => h x (.inl hx), fun x hx => h x (.inr hx)⟩, fun h x hx => hx.elim (h.1 x) (h.2 x)⟩
+
+theorem prefixed_canon {d : Bool} {e : List Nat} (h : Canon e) (hl : e.length < P) : Canon (prefixed d e) := by
+  cases d
+  · simpa using h
+  · simp only [prefixed_true]; exact Canon.cons_iff.2 ⟨hl, h⟩
+
+theorem encodeItems_canon (enc : Val → List Nat) (d : Bool) :
+    ∀ vs : List Val, (∀ v ∈ vs, (enc v).length < P → Canon (enc v)) → (encodeItems enc d vs).length < P →
+      Canon (encodeItems enc d vs)
+  | [], _, _ => by simp [Canon.nil]
+  | v :: vs, h, hl => by
+    simp only [encodeItems_cons, List.length_append, prefixed_length] at hl ⊢
+    have h1 : (enc v).length < P := by omega
+    exact Canon.append_iff.2 ⟨prefixed_canon (h v (by simp) h1) h1,
+      encodeItems_canon enc d vs (fun x hx => h x (by simp [hx])) (by omega)⟩
+
+theorem length_le_encodeItems (enc : Val → List Nat) (d : Bool) :
+    ∀ vs : List Val, (∀ v ∈ vs, d = true ∨ 1 ≤ (enc v).length) → vs.length ≤ (encodeItems enc d vs).length
+  | [], _ => by simp
+  | v :: vs, h => by
+    have ih := length_le_encodeItems enc d vs (fun x hx => h x (by simp [hx]))
+    simp only [encodeItems_cons, List.length_append, prefixed_length, List.length_cons]
+    rcases h v (by simp) with rfl | h1
+    · simp; omega
+    · omega
+
+theorem P_gt : 2^128 > P ∧ P > 2^64 - 2^32 ∧ P > 2^32 := by rw [P_val]; omega
+
+mutual
+theorem encode_canon : ∀ (t : Ty) (v : Val), hasTy t v = true → noZW t = true → wf t = true →
+    (encode t v).length < P → Canon (encode t v)
+  | .bfe, v, h, _, _, _ => by
+    obtain ⟨n, rfl, hn⟩ := isNumBelow_iff.1 (by simpa [hasTy] using h)
+    simp only [encode, numOf_num]; exact Canon.cons_iff.2 ⟨hn, Canon.nil⟩
+  | .u8, v, h, _, _, _ => by
+    obtain ⟨n, rfl, hn⟩ := isNumBelow_iff.1 (by simpa [hasTy] using h)
+    simp only [encode, numOf_num]; exact Canon.cons_iff.2 ⟨by rw [P_val]; omega, Canon.nil⟩
+  | .u16, v, h, _, _, _ => by
+    obtain ⟨n, rfl, hn⟩ := isNumBelow_iff.1 (by simpa [hasTy] using h)
+    simp only [encode, numOf_num]; exact Canon.cons_iff.2 ⟨by rw [P_val]; omega, Canon.nil⟩
+  | .u32, v, h, _, _, _ => by
+    obtain ⟨n, rfl, hn⟩ := isNumBelow_iff.1 (by simpa [hasTy] using h)
+    simp only [encode, numOf_num]; exact Canon.cons_iff.2 ⟨by rw [P_val]; omega, Canon.nil⟩
+  | .bool, v, h, _, _, _ => by
+    obtain ⟨n, rfl, hn⟩ := isNumBelow_iff.1 (by simpa [hasTy] using h)
+    simp only [encode, numOf_num]; exact Canon.cons_iff.2 ⟨by rw [P_val]; omega, Canon.nil⟩
+  | .u64, v, _, _, _, _ => by
+    simp only [encode]
+    exact Canon.cons_iff.2 ⟨by rw [P_val]; omega, Canon.cons_iff.2 ⟨by rw [P_val]; omega, Canon.nil⟩⟩
+  | .u128, v, _, _, _, _ => by
+    simp only [encode]
+    exact Canon.cons_iff.2 ⟨by rw [P_val]; omega, Canon.cons_iff.2 ⟨by rw [P_val]; omega,
+      Canon.cons_iff.2 ⟨by rw [P_val]; omega, Canon.cons_iff.2 ⟨by rw [P_val]; omega, Canon.nil⟩⟩⟩⟩
+  | .phantom, v, _, _, _, _ => by simp only [encode]; exact Canon.nil
+  | .box t, v, h, hz, hw, hb => by
+    simp only [hasTy] at h; simp only [noZW] at hz; simp only [wf] at hw; simp only [encode] at hb ⊢
+    exact encode_canon t v h hz hw hb
+  | .option t, v, h, hz, hw, hb => by
+    simp only [noZW] at hz; simp only [wf] at hw
+    cases v <;> simp [hasTy] at h
+    rename_i o
+    cases o with
+    | none => simp only [encode]; exact Canon.cons_iff.2 ⟨by rw [P_val]; omega, Canon.nil⟩
+    | some x =>
+      simp only [encode, List.length_cons] at hb ⊢
+      exact Canon.cons_iff.2 ⟨by rw [P_val]; omega, encode_canon t x (by simpa using h) hz hw (by omega)⟩
+  | .vec t, v, h, hz, hw, hb => by
+    cases v <;> simp [hasTy] at h
+    rename_i vs
+    simp only [noZW, Bool.and_eq_true, bne_iff_ne, ne_eq] at hz
+    simp only [wf] at hw
+    simp only [encode, List.length_cons] at hb ⊢
+    have hcount := length_le_encodeItems (fun x => encode t x) (isDyn t) vs (fun x hx => by
+      cases hs : staticLength t with
+      | none => left; simp [isDyn, hs]
+      | some w =>
+        right
+        have := encode_length_static t x w (h x hx) hs
+        have hw0 : w ≠ 0 := by intro h0; apply hz.2; rw [hs, h0]
+        omega)
+    exact Canon.cons_iff.2 ⟨by omega, encodeItems_canon _ _ vs
+      (fun x hx hl => encode_canon t x (h x hx) hz.1 hw hl) (by omega)⟩
+  | .array n t, v, h, hz, hw, hb => by
+    cases v <;> simp [hasTy] at h
+    rename_i vs
+    simp only [noZW, Bool.and_eq_true, bne_iff_ne, ne_eq] at hz
+    simp only [wf] at hw
+    simp only [encode] at hb ⊢
+    exact encodeItems_canon _ _ vs (fun x hx hl => encode_canon t x (h.2 x hx) hz.1 hw hl) hb
+  | .tuple ts, v, h, hz, hw, hb => by
+    cases v <;> simp [hasTy] at h
+    simp only [noZW] at hz
+    simp only [wf, Bool.and_eq_true] at hw
+    simp only [encode] at hb ⊢
+    exact encodeFields_canon ts _ h hz hw.2 hb
+  | .struct ts, v, h, hz, hw, hb => by
+    cases v <;> simp [hasTy] at h
+    simp only [noZW] at hz
+    simp only [wf] at hw
+    simp only [encode] at hb ⊢
+    exact encodeFields_canon ts _ h hz hw hb
+  | .poly t, v, h, hz, hw, hb => by
+    cases v <;> simp [hasTy] at h
+    rename_i cs
+    obtain ⟨h, hnz⟩ := h
+    simp only [noZW, Bool.and_eq_true, bne_iff_ne, ne_eq] at hz
+    have hnorm := normalize_of_not_lastIsZero cs hnz
+    simp only [encode, hnorm, List.length_cons] at hb ⊢
+    -- `wf (.poly t)` only says `t` is a field type; its own well-formedness follows
+    have hwt : wf t = true := by
+      simp only [wf] at hw
+      unfold isFieldTy at hw
+      split at hw
+      · rfl
+      · rfl
+      · simp at hw
+    have hcount := length_le_encodeItems (fun x => encode t x) (isDyn t) cs (fun x hx => by
+      cases hs : staticLength t with
+      | none => left; simp [isDyn, hs]
+      | some w =>
+        right
+        have := encode_length_static t x w (h x hx) hs
+        have hw0 : w ≠ 0 := by intro h0; apply hz.2; rw [hs, h0]
+        omega)
+    exact Canon.cons_iff.2 ⟨by omega, Canon.cons_iff.2 ⟨by omega, encodeItems_canon _ _ cs
+      (fun x hx hl => encode_canon t x (h x hx) hz.1 hwt hl) (by omega)⟩⟩
+  | .u32s k, v, h, _, _, hb => by
+    cases v <;> simp [hasTy] at h
+    rename_i ls
+    simp only [encode] at hb ⊢
+    exact encodeItems_canon _ _ ls (fun x hx _ => by
+      obtain ⟨n, rfl, hn⟩ := isNumBelow_iff.1 (h.2 x hx)
+      simp only [numOf_num]; exact Canon.cons_iff.2 ⟨by rw [P_val]; omega, Canon.nil⟩) hb
+  | .enum vars, v, h, hz, hw, hb => by
+    cases v <;> simp [hasTy] at h
+    rename_i k vs
+    simp only [noZW] at hz
+    simp only [wf, Bool.and_eq_true, decide_eq_true_eq] at hw
+    simp only [encode, List.length_cons] at hb ⊢
+    have hk := hasTyVariant_lt vars k vs h
+    exact Canon.cons_iff.2 ⟨by rw [P_val]; omega, encodeVariant_canon vars k vs h hz hw.2 (by omega)⟩
+theorem encodeFields_canon : ∀ (ts : List Ty) (vs : List Val), hasTys ts vs = true → noZWs ts = true →
+    wfs ts = true → (encodeFields ts vs).length < P → Canon (encodeFields ts vs)
+  | [], vs, _, _, _, _ => by simp [encodeFields, Canon.nil]
+  | t :: ts, vs, h, hz, hw, hb => by
+    cases vs with
+    | nil => simp [hasTys] at h
+    | cons v vs =>
+      simp only [hasTys, Bool.and_eq_true] at h
+      simp only [noZWs, Bool.and_eq_true] at hz
+      simp only [wfs, Bool.and_eq_true] at hw
+      simp only [encodeFields, List.length_append, prefixed_length] at hb ⊢
+      have h1 : (encode t v).length < P := by omega
+      exact Canon.append_iff.2 ⟨encodeFields_canon ts vs h.2 hz.2 hw.2 (by omega),
+        prefixed_canon (encode_canon t v h.1 hz.1 hw.1 h1) h1⟩
+theorem encodeVariant_canon : ∀ (vars : List (List Ty)) (k : Nat) (vs : List Val), hasTyVariant vars k vs = true →
+    noZWss vars = true → wfss vars = true → (encodeVariant vars k vs).length < P → Canon (encodeVariant vars k vs)
+  | [], k, vs, h, _, _, _ => by simp [hasTyVariant] at h
+  | fs :: rest, k, vs, h, hz, hw, hb => by
+    simp only [noZWss, Bool.and_eq_true] at hz
+    simp only [wfss, Bool.and_eq_true] at hw
+    cases k with
+    | zero =>
+      simp only [hasTyVariant] at h
+      simp only [encodeVariant] at hb ⊢
+      exact encodeFields_canon fs vs h hz.1 hw.1 hb
+    | succ k =>
+      simp only [hasTyVariant] at h
+      simp only [encodeVariant] at hb ⊢
+      exact encodeVariant_canon rest k vs h hz.2 hw.2 hb
+theorem hasTyVariant_lt : ∀ (vars : List (List Ty)) (k : Nat) (vs : List Val), hasTyVariant vars k vs = true →
+    k < vars.length
+  | [], k, vs, h => by simp [hasTyVariant] at h
+  | fs :: rest, k, vs, h => by
+    cases k with
+    | zero => simp
+    | succ k =>
+      simp only [hasTyVariant] at h
+      have := hasTyVariant_lt rest k vs h
+      simp; omega
+end
+
+
 end TF.Codec
